@@ -64,8 +64,9 @@ bool item_t::has_tag(const mask_t& tag_mask,
       if (tag_mask.match(data.first)) {
         if (! value_mask)
           return true;
-        else if (data.second.first)
-          return value_mask->match(data.second.first->to_string());
+        else if (data.second.first &&
+                 value_mask->match(data.second.first->to_string()))
+          return true;
       }
     }
   }
